@@ -919,6 +919,8 @@ class BlockNode(AstNode, NamespaceMixin):
         self.scope_file = parent.scope_file
         self.symbols = parent.symbols
         self.cxx_header = parent.cxx_header
+        # The declarations of a block are in the scope the block is in.
+        self.nodename = parent.nodename
 
         self.options = util.Scope(parent=parent.options)
         if options:
